@@ -158,6 +158,16 @@ def check_refine(ctx):
         if inc and cmp_facts:
             ctx.ob("R11-REFINE", g.dominates(inc[0], cmp_facts[0][1]), c.file, q, "radius uses the updated pull count", "increment precedes the test",
                    call.lineno, nontrivial=False)
+        # ... and this round's phase: no store to the phase clock is reachable after the test (the radius compared here is
+        # the one the next pull's index uses)
+        if cmp_facts:
+            late = [n for n in g.nodes if n.kind == "stmt" and isinstance(n.ast, (ast.Assign, ast.AugAssign)) and
+                    any(is_self_attr(t, "phase") for t in (n.ast.targets if isinstance(n.ast, ast.Assign) else [n.ast.target])) and
+                    g.paths_avoiding(cmp_facts[0][1], n)]
+            ctx.ob("R11-REFINE", not late, c.file, q, "radius uses this round's phase",
+                   "every phase update precedes the test" if not late else
+                   "self.phase is updated after the refinement test (%s): the test compares the previous phase's radius" % norm_src(late[0].ast),
+                   (late[0].ast.lineno if late else call.lineno))
     # phase clock: time += 1 once; phase grows when time reaches next_end_time
     tinc = [n for n in g.nodes if n.kind == "stmt" and SH.is_increment(n.ast, "self.time")]
     okc = len(tinc) == 1 and not g.guards(tinc[0]) and g.dominates(tinc[0], g.exit)
